@@ -190,6 +190,21 @@ PROPS['C17'] = {
     'level_note': W_NOTE, 'technique': W_TECH,
 }
 
+PROPS['C12'] = {
+    'level': 'exploration', 'budget': {'quick': 75, 'thorough': 1200},
+    'parts': [{'sim': 'limits', 'mode': 'sweep', 'share': 1}, {'sim': 'limits', 'share': 2}],
+    'rule': 'sweep: every built-in fingerprint x 12 server-side pushers x 4 relations of the user Config to the advertised values; seeded search: generated transport-parameter lists (values, absent parameters, rotated order) x arbitrary Config '
+            '(windows, stream counts, idle timeout, datagram support) x pusher {stream window per stream type against a stalled or a slowly reading application, connection window over up to 40 streams, uni/bidi stream counts, connection IDs, '
+            'DATAGRAM frame size at max / max-1 / 1 / 0, silence just below the effective idle timeout} x loss, duplication and reordering; the pusher reads the limits off the wire and goes exactly to each boundary; '
+            'non-trivial = the boundary was reached or a network fault fired; distinct = distinct abstract wire traces',
+    'real_vs_stub': 'real: UTransport client with spec, in-tree server, flow controllers, streams map, connection-ID manager, frame parser, idle timer, qlog recorder; stub: network, clock, application (pusher)',
+    'assumptions': ['the in-tree server is the conformant peer: if it ever goes beyond an advertised limit (checked on the wire) the run is reported under C04, not as a client fault',
+                    'a peer value of max_idle_timeout=0 is treated by the in-tree server as 5 s (probe idle-explicit-zero-server-uses-5s); the oracle uses the value the server put on the wire'],
+    'level_text': 'bounded sweep of built-in fingerprints x limits x Config relations plus seeded search over generated parameter lists, Configs and fault schedules on whole connections: a conformant peer can use every advertised limit to the full, '
+                  'the client raises no local transport error, does not idle out early, keeps granting credit, and its own record of its parameters (qlog, ConnectionState) equals the wire',
+    'level_note': W_NOTE, 'technique': W_TECH,
+}
+
 NOT_APPLICABLE = {
     'C08': 'pure functions of a byte string / value (quantifier: inputs only): no schedule, clock, fault or interleaving for a simulator to control; deciding it is input generation (fuzzing), a different technique - DESIGN.md section 5',
     'C19': 'predicate over field lists and http.Header values (quantifier: inputs only): no schedule, clock, fault or interleaving - DESIGN.md section 5',
